@@ -497,13 +497,25 @@ func (s Stage[C]) run(t *testing.T, r *Rec) {
 	t.Run(s.Name, func(t *testing.T) {
 		rapid.Check(t, func(rt *rapid.T) {
 			var c C
-			if g := guard(func() { c = s.Gen(rapidSrc{rt}) }); g.Panic != "" {
-				// a panic inside a generator is a harness defect: report it, never lose it
-				r.mu.Lock()
-				r.violations["harness: generator panic in stage "+s.Name] = &violation{Sig: r.Prop + " harness: generator panic in stage " + s.Name, Stage: s.Name, Detail: clip(g.Panic+"\n"+g.Stack, 4000)}
-				r.mu.Unlock()
-				rt.Fatalf("generator panic: %s", g.Panic)
-			}
+			func() {
+				defer func() {
+					p := recover()
+					if p == nil {
+						return
+					}
+					// rapid steers generation and shrinking with panics of its own types
+					// (invalid data, stop test): those must propagate untouched
+					if strings.HasPrefix(fmt.Sprintf("%T", p), "rapid.") {
+						panic(p)
+					}
+					// any other panic inside a generator is a harness defect: report it, never lose it
+					r.mu.Lock()
+					r.violations["harness: generator panic in stage "+s.Name] = &violation{Sig: r.Prop + " harness: generator panic in stage " + s.Name, Stage: s.Name, Detail: clip(fmt.Sprintf("%v\n%s", p, debug.Stack()), 4000)}
+					r.mu.Unlock()
+					rt.Fatalf("generator panic: %v", p)
+				}()
+				c = s.Gen(rapidSrc{rt})
+			}()
 			ctx := s.exec(r, c)
 			done++
 			if ctx.failed && os.Getenv("VERIF_NOSTOP") == "" {
